@@ -45,3 +45,55 @@ func lockDelays(seed uint64) (stop func() int) {
 		return n
 	}
 }
+
+// lockDelaysWriters is the same perturbation aimed at writers: every second acquisition of a write lock sleeps
+// 0..2 ms, readers only yield. Used where two requests race for one entity a few times in a row.
+func lockDelaysWriters(seed uint64) (stop func()) {
+	var mu sync.Mutex
+	state := seed | 1
+	cache.VerifLockHook = func(op string) {
+		mu.Lock()
+		state += 0x9e3779b97f4a7c15
+		z := state
+		z = (z ^ (z >> 30)) * 0xbf58476d1ce4e5b9
+		z = (z ^ (z >> 27)) * 0x94d049bb133111eb
+		z ^= z >> 31
+		mu.Unlock()
+		if op == "Lock" && z%2 == 0 {
+			time.Sleep(time.Duration((z>>8)%2000) * time.Microsecond)
+		} else {
+			runtime.Gosched()
+		}
+	}
+	return func() { cache.VerifLockHook = nil }
+}
+
+// parkAt owns the schedule of one goroutine: the goroutine that calls mark() is parked just before its k-th acquisition
+// of a cache mutex after that call (holding whatever it holds there) until release() is called. parked is closed when
+// it is parked. stop removes the hook.
+func parkAt(k int) (mark func(), parked chan struct{}, release func(), stop func()) {
+	var mu sync.Mutex
+	id, seen, done := "", 0, false
+	parked = make(chan struct{})
+	gate := make(chan struct{})
+	cache.VerifLockHook = func(op string) {
+		mu.Lock()
+		if id == "" || id != goid() || done {
+			mu.Unlock()
+			return
+		}
+		n := seen
+		seen++
+		hit := n == k
+		if hit {
+			done = true
+		}
+		mu.Unlock()
+		if hit {
+			close(parked)
+			<-gate
+		}
+	}
+	var once sync.Once
+	return func() { mu.Lock(); id = goid(); mu.Unlock() }, parked, func() { once.Do(func() { close(gate) }) }, func() { cache.VerifLockHook = nil }
+}
